@@ -134,7 +134,7 @@ Fixpoint replay (c : scfg) (jobs : list ojob) (at_sb : bool) (log : list lentry)
       end
   end.
 
-Fixpoint keys_of (m : list (bytes * N)) : list bytes := map fst m.
+Definition keys_of (m : list (bytes * N)) : list bytes := map fst m.
 Definition ms_eqb (a b : list (bytes * N)) : bool :=
   forallb (fun k => N.eqb (ms_get k a) (ms_get k b)) (keys_of a ++ keys_of b).
 
@@ -198,3 +198,6 @@ Definition check_case (c : case) : verdict :=
           existsb oj_by_stop js)
          "Stop() did not upload a window ending at the truncated stop time"
   ].
+
+(* the case files write bytes and counts as plain N literals, times with %Z, indexes with %nat *)
+Open Scope N_scope.
